@@ -103,3 +103,62 @@ where P::BaseField: Elem, <P::IsogenousCurve as CurveConfig>::BaseField: Elem {
     rep.transitions = n as u64;
     rep
 }
+
+
+/// Elligator 2 suites (twisted Edwards curves with a Montgomery form): the map on boundary, exceptional and random inputs,
+/// and hash_to_curve = clear_cofactor(map(u0) + map(u1))
+pub fn record_ell2<P: ark_ec::hashing::curve_maps::elligator2::Elligator2Config>(cfg: &str, seed: u64, n: usize, out: &mut dyn std::io::Write) -> Report
+where P::BaseField: Elem + PrimeField {
+    use ark_ec::hashing::curve_maps::elligator2::Elligator2Map;
+    use ark_ec::twisted_edwards::{MontCurveConfig, Projective as TEProjective, TECurveConfig};
+    use ark_ff::{AdditiveGroup, Field};
+    type D<P> = crate::curve::TEDrv<P>;
+    let mut rep = Report::default();
+    let mut rng = Rng(seed ^ 0xE112);
+    let r: BigUint = <P::ScalarField as PrimeField>::MODULUS.into();
+    let h = limbs_to_biguint(P::COFACTOR);
+    let (j, k, z) = (<P as MontCurveConfig>::COEFF_A, <P as MontCurveConfig>::COEFF_B, P::Z);
+    let hdr = json!({"op": "reset", "kind": "ell2", "cfg": cfg, "seed": seed, "p": num_to_json(&P::BaseField::modulus(), true), "lv": <P::BaseField as Elem>::levels(true),
+        "a": <P as TECurveConfig>::COEFF_A.to_abs(true).unwrap(), "d": <P as TECurveConfig>::COEFF_D.to_abs(true).unwrap(), "b": [], "r": num_to_json(&r, true), "h": num_to_json(&h, true), "heff": num_to_json(&h, true),
+        "J": j.to_abs(true).unwrap(), "K": k.to_abs(true).unwrap(), "Z": z.to_abs(true).unwrap(),
+        "iso_a": [], "iso_b": [], "zeta": [], "iso": {}, "hash": "sha512", "k": 128});
+    writeln!(out, "{}", hdr).unwrap();
+    let alpha = crate::field::boundary_values(&P::BaseField::modulus(), <P::BaseField as Elem>::nlimbs());
+    // exceptional inputs: u = 0; 1 + Z u^2 = 0; g(x1) = 0 (x1 a root of x^2 + (J/K) x + 1/K^2); s = x K = -1
+    let one = <P::BaseField as ark_ff::One>::one();
+    let jk = j / k;
+    let mut special: Vec<P::BaseField> = vec![<P::BaseField as ark_ff::Zero>::zero(), one, -one];
+    let from_x1 = |x1: P::BaseField| -> Option<P::BaseField> { let den = -jk / x1; ((den - one) / z).sqrt() };   // u with -(J/K)/(1 + Z u^2) = x1
+    if let Some(u) = (-(one / z)).sqrt() { special.push(u); special.push(-u); }
+    if let Some(sq) = (jk.square() - (one / k.square()).double().double()).sqrt() {
+        for x1 in [(-jk + sq) / one.double(), (-jk - sq) / one.double()] { if let Some(u) = from_x1(x1) { special.push(u); } if let Some(u) = from_x1(-x1 - jk) { special.push(u); } }
+    }
+    for xs in [-(one / k), one / k] { if let Some(u) = from_x1(xs) { special.push(u); } if let Some(u) = from_x1(-xs - jk) { special.push(u); } }
+    for step in 0..n {
+        let c = rng.below(10);
+        let res = guarded(|| -> Value {
+            if c < 6 {
+                let u = match rng.below(4) { 0 => *rng.pick(&special), 1 => P::BaseField::from_coords(&[rng.pick(&alpha).clone()]), 2 => P::BaseField::from(rng.below(40)), _ => P::BaseField::from_coords(&[rng.biguint_below(&P::BaseField::modulus())]) };
+                let q = Elligator2Map::<P>::map_to_curve(u).expect("elligator2");
+                json!({"op": "map_ell2", "u": u.to_abs(true).unwrap(), "ret": D::<P>::aff_abs(&q, true).unwrap()})
+            } else {
+                let msg = rand_bytes(&mut rng, &[0, 3, 16, 128, 300]); let dst = rand_bytes(&mut rng, &[1, 43, 255, 256]);
+                let hasher = MapToCurveBasedHasher::<TEProjective<P>, DefaultFieldHasher<Sha512, 128>, Elligator2Map<P>>::new(&dst).expect("hasher");
+                let p = hasher.hash(&msg).expect("hash");
+                let hf = <DefaultFieldHasher<Sha512, 128> as HashToField<P::BaseField>>::new(&dst);
+                let us: [P::BaseField; 2] = hf.hash_to_field::<2>(&msg);
+                let qs: Vec<Value> = us.iter().map(|u| D::<P>::aff_abs(&Elligator2Map::<P>::map_to_curve(*u).unwrap(), true).unwrap()).collect();
+                let again = hasher.hash(&msg).expect("hash");
+                if again != p { return json!({"op": "hash_to_curve_ell2", "panic": "hashing is not deterministic"}); }
+                json!({"op": "hash_to_curve_ell2", "msg": bytes_json(&msg), "dst": bytes_json(&dst), "u": coeffs(&us), "q": qs, "ret": D::<P>::aff_abs(&p, true).unwrap()})
+            }
+        });
+        let mut ev = match res { Ok(v) => v, Err(e) => json!({"op": "map_ell2", "panic": e}) };
+        ev["step"] = json!(step);
+        rep.op(ev["op"].as_str().unwrap()); rep.evaluations += 1; rep.nontrivial.insert(format!("{step}"));
+        rep.sample(&json!({"op": ev["op"], "step": step}));
+        writeln!(out, "{}", ev).unwrap();
+    }
+    rep.transitions = n as u64;
+    rep
+}
